@@ -378,6 +378,27 @@ func checkC08(c *hx.Ctx) {
 				return
 			}
 			c.Count("anchored_create_with_substituted_delta")
+			// the same for a recover: genuine signed data, delta exchanged for another well-formed one naming the attacker's
+			// update commitment; afterwards an update by that key
+			{
+				okCreate := Place(u.MkCreate("create", ref.DeltaOK), 1000, 0, "ref0", 0)
+				spec := &ref.SignedSpec{Op: "recover", Code: code, Suffix: u.Suffix, RevealKey: u.R[0], RecoveryCommitment: u.R[1].Commitment(code),
+					Delta: ref.Delta(u.U[1].Commitment(code), []interface{}{patchAddServices(svcEntry("genuine", "t", "https://genuine.example"))}), AnchorOrigin: "o",
+					DeltaInRequest: evil}
+				rec := &ref.Op{Label: "recover-with-substituted-delta", Type: "recover", Request: ref.MustJCS(spec.Request()), Parses: true, Authorised: true,
+					Consumes: u.R[0].Commitment(code), NextRecovery: u.R[1].Commitment(code), NextUpdate: u.X[0].Commitment(code), DeltaStatus: ref.DeltaMismatch,
+					Patches: evil["patches"].([]interface{}), AnchorOrigin: "o", MaxDelta: u.MaxDelta}
+				H := []*ref.Op{okCreate, Place(rec, 1010, 0, "ref1", 0), Place(up, 1020, 0, "ref2", 0)}
+				c.Eval()
+				st, merr := ref.Resolve(H, ref.ResolveOpts{})
+				rm, err := SUTResolve(pcu, u.Suffix, H, nil)
+				if want, got := stKey(st, merr), rmKey(rm, err); want != got {
+					c.Violation("C08 an anchored recover whose delta does not match the signed delta hash still binds state from that delta\n   model:   "+want+"\n   library: "+got,
+						map[string]interface{}{"suffix": u.Suffix, "history": replayOps(H), "model": want, "library": got})
+					return
+				}
+				c.Count("anchored_recover_with_substituted_delta")
+			}
 			// the reveal value binds the key: an anchored update / recover / deactivate whose reveal value is the hash of the
 			// owner's key while its signed data names (and is signed by) another key has no effect
 			okCreate := Place(u.MkCreate("create", ref.DeltaOK), 1000, 0, "ref0", 0)
@@ -440,6 +461,7 @@ func checkC08(c *hx.Ctx) {
 	})
 	c.Floor("suffix_agreement_between_parser_and_batch_reader", 20)
 	c.Floor("anchored_create_with_substituted_delta", 20)
+	c.Floor("anchored_recover_with_substituted_delta", 20)
 	c.Floor("longform_valid_resolved", 20)
 	c.Floor("longform_with_label_resolved", 20)
 	c.Floor("longform_rejected:suffix-altered", 200)
